@@ -776,7 +776,7 @@ var ruleAtomics = &core.Rule{ID: "R06.1", Min: 3,
 
 // R06.2 + R06.6
 var ruleLockset = &core.Rule{ID: "R06.2", Min: 8,
-	Doc: "lockset: every read of the children field of a shared node happens under the read or write lock, every store under the write lock; exported API requires nothing from callers; no re-acquisition, consistent state at joins",
+	Doc: "lockset: every read of the children field of a shared node happens under the read or write lock, every store under the write lock; exported API requires nothing from callers; no re-acquisition, consistent state at joins; every return leaves the tree lock released or has a deferred release pending",
 	Run: func(c *core.Ctx, s *core.Sink) {
 		m := getConc(c)
 		acc, problems, _ := m.lockset(c)
